@@ -458,7 +458,8 @@ class Parser:
 
     def _at_rvalue(self, include_reg=True) -> bool:
         token = self.current_token
-        if token.is_mark('{', '['):
+        # A minus starts a negative number, as in "print -5" or "cycle -90".
+        if token.is_mark('{', '[', '-'):
             return True
         if token.token_type in (
                 TokenTypes.LITERAL_STRING,
